@@ -21,7 +21,7 @@ func traceSnaps(s *solver.Solver) []Snap {
 	for i, v := range vs {
 		res[i] = Snap{Kind: v.Kind, Lvl: v.Lvl, Trail: v.Trail, Model: v.Model, Reasons: v.Reasons, Assumptions: v.Assumptions,
 			Conflict: v.Conflict, Constrs: v.Constrs, Done: v.Done, ResKind: v.ResKind, Learnt: v.Learnt, Unit: v.Unit,
-			Props: v.Props, NewLvl: v.NewLvl, NbOrig: v.NbOrig, CP: v.CP, Restarts: v.Restarts, HeapContent: v.HeapContent, HeapIndices: v.HeapIndices}
+			Props: v.Props, NewLvl: v.NewLvl, NbOrig: v.NbOrig, CP: v.CP, Restarts: v.Restarts, HeapContent: v.HeapContent, HeapIndices: v.HeapIndices, Watched: v.Watched, PBFlags: v.PBFlags}
 	}
 	return res
 }
